@@ -204,6 +204,38 @@ def rule_order(ctx, px):
            "" if ok else "per-standard defaults are applied partially or conditionally", cpp.node.lineno)
 
 
+def rule_group_unit(ctx, px, root):
+    R = "R-C13-GROUP-UNIT"
+    ctx.rule(
+        R,
+        "the per-standard option groups (`defaults` of a language in properties.yaml) are siblings: every group sets "
+        "the same keys, so that a shorthand such as c++17-pmr determines its whole documented group whatever a "
+        "lower-precedence source said; every key of a group is a declared option",
+    )
+    import yaml
+
+    cfg = yaml.safe_load((root / "src" / "nunavut" / "lang" / "properties.yaml").read_text())
+    n = 0
+    for sect, body in cfg.items():
+        groups = (body or {}).get("defaults") or {}
+        if not groups:
+            continue
+        opts = set(((body or {}).get("options") or {}).keys())
+        union = set()
+        for g in groups.values():
+            union |= set(g.keys())
+        for name, g in sorted(groups.items()):
+            n += 1
+            missing = sorted(union - set(g.keys()))
+            ctx.ob(R, "src/nunavut/lang/properties.yaml", f"{sect}.defaults.{name} sets the full group ({len(union)} keys)", not missing,
+                   "" if not missing else f"does not set {missing}, which sibling groups do: selecting `{name}` explicitly leaves whatever an "
+                   "earlier configuration file or another shorthand put there - the shorthand no longer sets its group as a unit")
+            unknown = sorted(set(g.keys()) - opts)
+            ctx.ob(R, "src/nunavut/lang/properties.yaml", f"{sect}.defaults.{name} uses declared options only", not unknown,
+                   "" if not unknown else f"unknown option keys {unknown}")
+    ctx.floor(R, n, 2)
+
+
 def rule_ownership(ctx, px):
     R = "R-C13-OWNERSHIP"
     ctx.rule(
@@ -295,4 +327,5 @@ def run(ctx):
     px = pyfront.PyIndex(ctx.root)
     rule_default_wrap(ctx, px)
     rule_order(ctx, px)
+    rule_group_unit(ctx, px, ctx.root)
     rule_ownership(ctx, px)
